@@ -201,6 +201,17 @@ fn main() {
         println!("{}", crustabri_verif::oracle::SAT_ANSWERS.load(std::sync::atomic::Ordering::Relaxed));
         return;
     }
+    if args.get(1).map(|s| s == "satcount-all").unwrap_or(false) {
+        // explores every behaviour of the harness; prints the number of satisfiable answers over all of them and the
+        // failure messages met (used by lib/select_unsat_first.py)
+        let f = registry::lookup(&args[2]).expect("unknown harness");
+        let (runs, _disc, failures) = native::explore(move || f(), 100_000);
+        println!("SAT_ANSWERS {} runs {}", crustabri_verif::oracle::SAT_ANSWERS.load(std::sync::atomic::Ordering::Relaxed), runs);
+        for (_s, m) in failures.iter() {
+            println!("FAILURE {}", m);
+        }
+        return;
+    }
     if args.get(1).map(|s| s == "replay").unwrap_or(false) {
         std::process::exit(replay_script(&args[2], args.get(3).map(|s| s.as_str()).unwrap_or("")));
     }
